@@ -73,6 +73,17 @@ pub fn dispatch(op: &str, a: &[Val]) -> Option<Val> {
             };
             Some(vopt(r, enc_ndt))
         })(),
+        // the deprecated panicking constructors
+        #[allow(deprecated)]
+        "t.phms" => (|| Some(enc_time(NaiveTime::from_hms(a.get(0)?.u32()?, a.get(1)?.u32()?, a.get(2)?.u32()?))))(),
+        #[allow(deprecated)]
+        "t.phms_milli" => (|| Some(enc_time(NaiveTime::from_hms_milli(a.get(0)?.u32()?, a.get(1)?.u32()?, a.get(2)?.u32()?, a.get(3)?.u32()?))))(),
+        #[allow(deprecated)]
+        "t.phms_micro" => (|| Some(enc_time(NaiveTime::from_hms_micro(a.get(0)?.u32()?, a.get(1)?.u32()?, a.get(2)?.u32()?, a.get(3)?.u32()?))))(),
+        #[allow(deprecated)]
+        "t.phms_nano" => (|| Some(enc_time(NaiveTime::from_hms_nano(a.get(0)?.u32()?, a.get(1)?.u32()?, a.get(2)?.u32()?, a.get(3)?.u32()?))))(),
+        #[allow(deprecated)]
+        "t.pnsfm" => (|| Some(enc_time(NaiveTime::from_num_seconds_from_midnight(a.get(0)?.u32()?, a.get(1)?.u32()?))))(),
         _ => return None,
     };
     Some(r.unwrap_or_else(bad))
